@@ -178,7 +178,7 @@ def main():
                     hit = spec
                     break
             if hit:
-                e = {"key": r["key"], "reason": hit[2]}
+                e = {"key": r["key"], "alt": r["akey"], "reason": hit[2]}
                 if len(hit) > 3 and hit[3]:
                     def fix(q):
                         q = dict(q)
